@@ -24,6 +24,7 @@ mod c19;
 mod c20;
 mod simnet;
 mod c02;
+mod c10;
 mod c01;
 
 use common::Tier;
@@ -52,6 +53,7 @@ fn main() {
         "C04" => c03_c04_c06::run_c04(tier),
         "C06" => c03_c04_c06::run_c06(tier),
         "C09" => c09::run(tier),
+        "C10" => c10::run(tier),
         "C11" => c11::run(tier),
         "C12" => c12::run(tier),
         "C13" => c13::run(tier),
